@@ -1,7 +1,8 @@
-(* Extraction of the C04 model (Cluster model + fault events + recovery bookkeeping; Store model for the disk scenarios).
+(* Extraction of the C04 model: Cluster model + fault events + recovery bookkeeping, Store model for the disk
+   scenarios, relational RS judgements for the erasure-coded cases (entry point run_case_all, C04/Entry.v).
    ExtrOcamlBasic only; numbers stay Coq inductives. *)
 From Coq Require Import Extraction ExtrOcamlBasic.
-From BLB Require Import C04.Model.
+From BLB Require Import C04.Entry.
 Extraction Language OCaml.
 Set Extraction Output Directory ".".
-Extraction "model.ml" run_case.
+Extraction "model.ml" run_case_all.
